@@ -9,7 +9,7 @@ from harness.checks import routerlib as rl
 CLAUSES = {
     'C01': {'Resolve404', 'Route', 'Params', 'Outcome'},
     'C02': {'Resolve404', 'Method', 'Allow', 'Outcome'},
-    'C11': {'Resolve404', 'Route', 'Params', 'Method', 'Allow', 'Hooks', 'IndexAgree', 'Outcome'},
+    'C11': {'Resolve404', 'Route', 'Params', 'Method', 'Allow', 'Hooks', 'IndexAgree', 'Outcome', 'Verdict'},
 }
 VERBS = ['GET', 'HEAD', 'POST', 'DELETE', 'get', 'Head', 'PURGE', 'trace', 'LOCK', 'UNLOCK']      # incl. verbs outside the standard set: they fall back to ANY too
 TOKEN = rl.TOKEN
@@ -504,8 +504,34 @@ def run(chk, pid):
                         {'op': 'add', 'r': r, 'ow': True, 'spelled': None, 'flavour': rng.randrange(12)},
                         {'op': 'add_hook', 'r': hook_r, 'flavour': rng.randrange(12)}]
                 reinstall = True
+        retype = None
+        if pid == 'C11' and it % 9 in (3, 8) and not reinstall:
+            # a wildcard position held by a hook and by routes below it is vacated completely (in either order), then the
+            # position is registered again with ANOTHER wildcard type: a freshly built router has no reason to refuse
+            seg = rl.s2l(rng.choice(['item', 'u', 'a']))
+            f1, f2 = rng.sample(['None', 'int(None)', 're([a-z]+)', 'float(None)'], 2)
+            hp = seg + [47, TOKEN]
+            hook_r = {'id': 'h', 'pat': hp, 'filters': [f1], 'names': ['id'], 'meths': [], 'name': ''}
+            below = [{'id': 'bel%d_%d' % (it, j), 'pat': hp + [47] + rl.s2l(leaf), 'filters': [f1], 'names': ['id'], 'meths': ['GET'],
+                      'meths_spelled': ['GET'], 'name': ''} for j, leaf in enumerate(rng.sample(['x', 'edit', 'x1'], rng.choice([1, 2])))]
+            again = {'id': 'again%d' % it, 'pat': hp + rng.choice([[], [47] + rl.s2l('x')]), 'filters': [f2], 'names': ['slug'], 'meths': ['GET'],
+                     'meths_spelled': ['GET'], 'name': ''}
+            keep = {'id': 'keep%d' % it, 'pat': seg + rl.s2l('s'), 'filters': [], 'names': [], 'meths': ['GET'], 'meths_spelled': ['GET'], 'name': ''}
+            uni = below + [again, keep]
+            rm = [{'op': 'remove_rule', 'r': b} for b in below]
+            rmh = [{'op': 'remove_hook', 'r': hook_r}]
+            first = [{'op': 'add_hook', 'r': hook_r}] + [{'op': 'add', 'r': b, 'ow': False, 'spelled': None} for b in below]
+            if it % 2:
+                first.reverse()
+            ops2 = [{'op': 'add', 'r': keep, 'ow': False, 'spelled': None}] + first + \
+                   [{'op': 'add', 'r': again, 'ow': False, 'spelled': None}] + \
+                   (rm + rmh if it % 9 == 3 else rmh + rm) + \
+                   [{'op': 'add', 'r': again, 'ow': False, 'spelled': None}, {'op': 'add_hook', 'r': dict(hook_r, filters=[f2])}]
+            for o in ops2:
+                o.setdefault('flavour', rng.randrange(12))
+            retype = again
         diverge = None
-        if pid == 'C11' and it % 5 == 1 and not reinstall:
+        if pid == 'C11' and it % 5 == 1 and not reinstall and retype is None:
             # removal by a prefix that NO rule starts with but that shares the beginning of an edge with registered rules
             # (leaves the edge after one or more common characters): nothing may be removed, every survivor stays intact
             def inner_cuts(r):
@@ -526,6 +552,8 @@ def run(chk, pid):
             probes = rl.instances([diverge], [], rng)[:12] + probes[:6]
         if it % 7 == 6:
             probes = [rlit['pat'], seg + [47] + rl.s2l('zz') + tail] + probes[:6]
+        if retype is not None:
+            probes = rl.instances([retype], [], rng)[:10] + probes[:4]
         if reinstall:
             # every instance of the rule under the re-installed hook
             probes = [q for q in rl.instances([r], [], rng) if q[:len(hp)] == hp][:40] + probes[:4]
